@@ -91,8 +91,9 @@ class Pulse(object):
         """
         starts_at_0 = abs(parametrization(0) - 0) < self.epsilon
         stops_at_0 = abs(parametrization(1) - 1) < self.epsilon
-        # Allow for rounding: where the pulse vanishes, the increase over a step is below the float resolution.
-        is_monotone = all((parametrization(x + self.epsilon) >= parametrization(x) - self.epsilon**2)
+        # Allow for rounding: where the pulse vanishes, the increase over a step is below the float resolution. The
+        # absolute part keeps the slack above the rounding error of the parametrization when a small epsilon is set.
+        is_monotone = all((parametrization(x + self.epsilon) >= parametrization(x) - (self.epsilon**2 + 1e-12))
                           for x in np.linspace(0, 1-self.epsilon, self.check_n_points))
         return starts_at_0 and stops_at_0 and is_monotone
 
